@@ -8,6 +8,15 @@ ASSUME_COMMON = [
 
 CHECKS = {}
 
+import json as _json
+import os as _os
+
+_PROPS = {}
+with open(_os.path.join(_os.path.dirname(_os.path.dirname(_os.path.abspath(__file__))), "properties.jsonl")) as _f:
+    for _l in _f:
+        _p = _json.loads(_l)
+        _PROPS[_p["id"]] = _p
+
 
 def reg(id, sources, rule, level="exploration", quick=("dbg-asan",), thorough=("dbg-asan", "rel-asan"),
         assumptions=(), exhaustive=None, **kw):
@@ -15,6 +24,9 @@ def reg(id, sources, rule, level="exploration", quick=("dbg-asan",), thorough=("
              configs={"quick": list(quick), "thorough": list(thorough)},
              assumptions=ASSUME_COMMON + list(assumptions), exhaustive=exhaustive or {})
     d.update(kw)
+    # reach evidence is measured on the files the property is anchored in
+    d.setdefault("anchor_files", [f for f in _PROPS.get(id, {}).get("anchors", {}).get("files", [])
+                                  if f.endswith(".c") or f.endswith(".h")])
     CHECKS[id] = d
 
 
